@@ -3,6 +3,7 @@
 mod arith;
 mod c10;
 mod c11;
+mod c14;
 mod c15;
 mod c17;
 mod c18;
@@ -49,6 +50,7 @@ const EXECS: &[Exec] = &[
     c22::exec,
     c15::exec,
     sweep::exec,
+    c14::exec,
     c23::exec,
     c24::exec,
     c35::exec,
@@ -75,6 +77,7 @@ fn generate(prop: &str, sink: &mut sink::Sink, rng: &mut rng::Rng, n: u64) -> bo
         "C09" => lang::generate(sink, rng, n, false, Some("o.c09")),
         "C04" => sweep::generate(sink, rng, n, "o.c04.fn"),
         "C05" => sweep::generate(sink, rng, n, "o.c05.fn"),
+        "C14" => c14::generate(sink, rng, n),
         "C15" => c15::generate(sink, rng, n),
         "C16" => c17::generate_c16(sink, rng, n),
         "C17" => c17::generate(sink, rng, n),
